@@ -221,6 +221,23 @@ def evaluate(case) -> Result:
             res.classes.append("with-earlier-requests")
             if any(r["hbh"] >= 0x2800 and r["hbh"] < 0x2900 and r["app_id"] == case["app_id"] for r in w.requests_seen):
                 res.classes.append("earlier-delivery-of-same-app-id")
+        # history: requests the node's own applications have tried to send before (any realm; they fail with
+        # NotRoutable or time out unanswered) - outbound routing must leave the inbound dispositions alone
+        for j, realm_ in enumerate(case.get("earlier_out") or []):
+            if not w.apps:
+                break
+            from diameter.message.commands import CreditControlRequest
+            app_ = w.apps[j % len(w.apps)]
+            m_ = CreditControlRequest()
+            m_.session_id, m_.origin_host, m_.origin_realm = f"n;{j}", W.NODE_HOST.encode(), W.NODE_REALM.encode()
+            m_.destination_realm, m_.service_context_id = realm_.encode(), "x"
+            m_.cc_request_type, m_.cc_request_number = 1, 0
+            call_ = w.app_call(lambda m=m_, a=app_: a.send_request(m, timeout=1), name=f"outbound{j}")
+            w.advance(2)
+            exc_ = call_["box"]["exc"]
+            res.classes.append(f"earlier-outbound:{type(exc_).__name__ if exc_ is not None else 'answered'}")
+        if case.get("earlier_out"):
+            res.classes.append("with-earlier-outbound-requests")
         n0 = len(sender.refresh())
         noise = case.get("noise", [])
         if "DWR-before" in noise:
@@ -464,6 +481,8 @@ def shard_main(shard, nshards, tier, scale):
                 "earlier": draw(st.one_of(st.just([]), st.lists(st.tuples(
                     st.integers(0, 1), st.sampled_from(ids + [999]),
                     st.sampled_from(["example", "example", "extra.example", "Roaming.Example"])).map(list), min_size=1, max_size=3))),
+                "earlier_out": draw(st.one_of(st.just([]), st.just([]), st.lists(st.sampled_from(
+                    ["example", "extra.example", "elsewhere.example", "Roaming.Example", "other.example"]), min_size=1, max_size=2))),
                 "seed": draw(st.integers(0, 3))}
 
     def rbody(case):
@@ -479,7 +498,7 @@ def run(tier, scale=1.0):
     rec = Recorder(PID)
     for d in hyp.pool_run(shard_main, (tier, scale)):
         rec.merge(d)
-    required = {"realm:of-a-peer-without-application": 1, "layout:two-peers-extra-realms": 1, "with-earlier-requests": 1, "earlier-delivery-of-same-app-id": 1, "sender:overlapping-reconnect": 1, "t-flag:new-request": 1, "sender:awaiting-dwa": 1, "sender:outbound-respelled": 1, "layout:mixed-case-realm": 1, "expect:deliver": 1, "expect:5005": 1, "expect:3003": 1, "expect:3007": 1, "handler:raise": 1,
+    required = {"realm:of-a-peer-without-application": 1, "layout:two-peers-extra-realms": 1, "with-earlier-requests": 1, "with-earlier-outbound-requests": 1, "earlier-outbound:NotRoutable": 1, "earlier-delivery-of-same-app-id": 1, "sender:overlapping-reconnect": 1, "t-flag:new-request": 1, "sender:awaiting-dwa": 1, "sender:outbound-respelled": 1, "layout:mixed-case-realm": 1, "expect:deliver": 1, "expect:5005": 1, "expect:3003": 1, "expect:3007": 1, "handler:raise": 1,
                 "layout:same-id-two-peers": 1, "layout:three-apps": 1, "app:threading": 1, "removed:2": 1}
     return finish(rec, tier=tier, level="exploration", rule=RULE, assumptions=ASSUME, t0=t0,
                   required_classes=required,
